@@ -487,14 +487,15 @@ func (vfs *MemFS) MkdirAll(path string, perm fs.FileMode) error {
 func (vfs *MemFS) mkdirAll(path string, perm fs.FileMode) (again bool, err error) {
 	const op = "mkdir"
 
+	// path itself may be a symbolic link : if it leads nowhere the name exists and is not a directory.
+	isLink := false
+	if _, lc, _, lerr := vfs.searchNode(path, slmLstat); lerr == vfs.err.FileExists {
+		_, isLink = lc.(*symlinkNode)
+	}
+
 	parent, child, pi, err := vfs.searchNode(path, slmEval)
-	if err != vfs.err.FileExists {
-		// path itself may be a symbolic link that leads nowhere : the name exists and is not a directory.
-		if _, lc, _, lerr := vfs.searchNode(path, slmLstat); lerr == vfs.err.FileExists {
-			if _, ok := lc.(*symlinkNode); ok {
-				return false, &fs.PathError{Op: op, Path: path, Err: vfs.err.FileExists}
-			}
-		}
+	if isLink && err != vfs.err.FileExists {
+		return false, &fs.PathError{Op: op, Path: path, Err: vfs.err.FileExists}
 	}
 
 	switch child.(type) {
